@@ -43,7 +43,7 @@ struct C05 : Property
 	{
 		return {"put.last_reference_frees", "put.not_last_reference", "cascade.children_destroyed_with_parent", "child_outlives_parent", "replace.releases_old_value", "replace.same_key_twice",
 		        "delete.member_with_extra_ref_survives", "array.put_over_occupied_slot", "array.del_range_releases", "array.out_of_range_refused", "object.self_add_refused",
-		        "userdata.replaced_callback_runs", "deep_copy.ok", "pointer_set.ok", "pointer_set.failed_value_kept", "patch.ok", "patch.failed", "patch.copy_from", "shared_node_in_two_containers",
+		        "userdata.replaced_callback_runs", "deep_copy.ok", "pointer_set.ok", "pointer_set.root_replaced_by_itself", "pointer_set.failed_value_kept", "patch.ok", "patch.failed", "patch.copy_from", "shared_node_in_two_containers",
 		        "alloc_failure.value_kept_by_caller", "parse.tree_from_parser", "userdata.same_pointer_reinstalled", "object.filled_past_growth_threshold", "deep_copy.refused_midway_unwound", "userdata.deleter_with_null_userdata"};
 	}
 
@@ -795,8 +795,8 @@ struct C05 : Property
 				const char *path = paths[op.arg(2) % 8];
 				if (!root || (!null_value && !v) || (op.arg(0) % 8 == op.arg(1) % 8 && !null_value))
 					skipped = true;
-				else if (v && intersects(v, root))
-					skipped = true; // the path may resolve to a container that is (inside) v, e.g. "/k2/-" where k2 is v or shares a node with v: a cycle, forbidden to callers
+				else if (v && path[0] != '\0' && intersects(v, root))
+					skipped = true; // (the whole-document path "" inserts nothing: the value may be the root itself through a second handle, or a node inside it) the path may resolve to a container that is (inside) v, e.g. "/k2/-" where k2 is v or shares a node with v: a cycle, forbidden to callers
 				else
 				{
 					size_t ri = (size_t)(op.arg(0) < 0 ? -op.arg(0) : op.arg(0)) % s.handles.size();
@@ -808,6 +808,8 @@ struct C05 : Property
 							// the handle now holds the value itself; the caller's second handle on it is the one that was given away
 							if (v)
 								H(op.arg(1)) = nullptr;
+							if (v == root)
+								ctx.probe("pointer_set.root_replaced_by_itself");
 						}
 						else if (v)
 							H(op.arg(1)) = nullptr;
